@@ -129,3 +129,64 @@ func vp_C01_strings() {
 	vpAssert("idempotent", err2 == nil && bytes.Equal(again, got))
 	vpReach("done", true)
 }
+
+// vpKeyLess: strict order of two keys by their bytes (= by code point for UTF-8), written out by hand.
+func vpKeyLess(a, b string) bool {
+	for i := 0; i < len(a) && i < len(b); i++ {
+		if a[i] != b[i] {
+			return a[i] < b[i]
+		}
+	}
+	return len(a) < len(b)
+}
+
+// vp:check C01 both configs=klen:1|2;depth:flat|nested K=60 timeout=1500
+// vp_C01_sort: object members come out sorted by key (code-point order), at every nesting level, whatever order they
+// were given in. Three keys of 1-2 arbitrary printable ASCII bytes (pairwise distinct; the solver also picks keys that
+// are prefixes of each other and keys differing only in the second byte), values of different kinds; in the nested
+// shape an inner object carries the same keys in another order.
+func vp_C01_sort() {
+	n := vpConfigInt("klen")
+	keys := make([]string, 3)
+	for i := range keys {
+		var k string
+		if n == 2 && vpNondetBool("short"+string(rune('0'+i))) {
+			k = vpNondetStringN("key"+string(rune('0'+i)), 1)
+		} else {
+			k = vpNondetStringN("key"+string(rune('0'+i)), n)
+		}
+		for j := 0; j < len(k); j++ {
+			vpAssume(k[j] >= 0x20 && k[j] < 0x7F && k[j] != '"' && k[j] != '\\')
+		}
+		keys[i] = k
+	}
+	vpAssume(keys[0] != keys[1] && keys[0] != keys[2] && keys[1] != keys[2])
+	vals := []string{`1`, `"v"`, `[true,null]`}
+	if vpConfig("depth") == "nested" {
+		vals[2] = `{"` + keys[1] + `":0,"` + keys[0] + `":[],"` + keys[2] + `":{}}`
+	}
+	doc := `{"` + keys[0] + `":` + vals[0] + `,"` + keys[1] + `":` + vals[1] + `,"` + keys[2] + `":` + vals[2] + `}`
+	// reference: selection sort of the three (key, value) pairs
+	idx := []int{0, 1, 2}
+	for i := 0; i < 3; i++ {
+		for j := i + 1; j < 3; j++ {
+			if vpKeyLess(keys[idx[j]], keys[idx[i]]) {
+				idx[i], idx[j] = idx[j], idx[i]
+			}
+		}
+	}
+	wantVals := []string{vals[0], vals[1], vals[2]}
+	if vpConfig("depth") == "nested" {
+		inner := []string{`[]`, `0`, `{}`} // values of keys[0], keys[1], keys[2] inside the inner object
+		wantVals[2] = `{"` + keys[idx[0]] + `":` + inner[idx[0]] + `,"` + keys[idx[1]] + `":` + inner[idx[1]] + `,"` + keys[idx[2]] + `":` + inner[idx[2]] + `}`
+	}
+	want := `{"` + keys[idx[0]] + `":` + wantVals[idx[0]] + `,"` + keys[idx[1]] + `":` + wantVals[idx[1]] + `,"` + keys[idx[2]] + `":` + wantVals[idx[2]] + `}`
+	got, err := CanonicalJSON([]byte(doc))
+	vpAssert("accepted", err == nil)
+	if err != nil {
+		return
+	}
+	vpAssert("members-sorted", string(got) == want)
+	vpReach("reordered", idx[0] != 0)
+	vpReach("done", true)
+}
